@@ -7,6 +7,11 @@ Contracts (from the property statement) sit on the REAL functions
 Oracles: refsem.dmref (Uhlmann fidelity through three independent routes, SVD trace distance), refsem.core.partial_trace_dm,
 refsem.f_stab (all stabilizer states with complete Clifford tableaux).
 
+Hardening items (STRENGTHEN_BRIEF H1/H2/H5): functions.arguments_unchanged_repeatable (the caller's arrays themselves, in
+complex / real / Fortran / strided forms, twice), partial_trace.complex_states_and_chains, metrics.repeated_use_and_frames (one
+metric object, several states, twice; target / state data unchanged), Infidelity.mixed_stabilizer_state.  They stay on the
+classes the known findings C17-F1/F2 cannot reach (graph states across representations, same representation otherwise).
+
 Tolerances.  Values are compared with 1e-9 whenever both arguments are full rank or one of them is pure.  For two mixed
 states of which at least one is rank deficient, *every* route that takes the square root of a numerically-zero eigenvalue
 (graphiq's and scipy's alike) is only accurate to ~sqrt(machine eps) ~ 2e-8 (measured: 2.4e-8 on 1 680 random pairs);
@@ -358,6 +363,214 @@ def td_metric(inp):
     return None
 
 
+# ------------------------------------------------------------------ hardening: frames (H2), repeated use (H1), input forms (H5)
+def _as_form(rho, form):
+    """the same matrix handed over in another dtype / memory layout (only value-preserving forms)"""
+    if form == "complex":
+        return np.array(rho, dtype=complex)
+    if form == "real":  # only used for real states
+        return np.array(np.real(rho), dtype=float)
+    if form == "fortran":
+        return np.asfortranarray(np.array(rho, dtype=complex))
+    if form == "view":  # non-contiguous view into a larger buffer
+        d = rho.shape[0]
+        big = np.zeros((2 * d, 2 * d), dtype=complex)
+        big[::2, ::2] = rho
+        return big[::2, ::2]
+    raise ValueError(form)
+
+
+def _bytes(a):
+    return (np.asarray(a).dtype.str, np.asarray(a).shape, np.ascontiguousarray(a).tobytes())
+
+
+@S.item("functions.arguments_unchanged_repeatable", site="graphiq.backends.density_matrix.functions:fidelity,trace_distance,partial_trace",
+        bound="pairs of the structured n=2 family (sampled) and seeded random pairs n<=3 (real / complex, every rank) x matrix "
+              "forms {complex128, float64 (real states), Fortran order, strided view}: fidelity, trace_distance, partial_trace called "
+              "on the caller's arrays themselves, each twice, with another pair evaluated in between",
+        clause="fidelity / trace distance / partial trace are functions of their arguments: the arrays handed in (matrices, keep, "
+               "dims) are bit-for-bit unchanged, the value does not depend on dtype / memory layout or on earlier calls")
+def frames_dm(inp):
+    dmf = _dmf()
+    sa, sb, form, other = inp
+    a, b = dmref.build(sa), dmref.build(sb)
+    o = dmref.build(other)
+    n = a[2]
+    is_real = bool(np.allclose(np.imag(a[0]), 0, atol=0) and np.allclose(np.imag(b[0]), 0, atol=0))
+    if form == "real" and not is_real:
+        form = "complex"
+    rho, sig = _as_form(a[0], form), _as_form(b[0], form)
+    r0, s0 = _bytes(rho), _bytes(sig)
+    tol = _tol(a, b)
+    pa = abs(dmref.purity(a[0]) - 1) < 1e-12 or abs(dmref.purity(b[0]) - 1) < 1e-12
+    want_f = float(np.real(np.trace(a[0] @ b[0]))) if pa else dmref.uhlmann_factors(a[1], b[1])
+    want_t = dmref.trace_distance(a[0], b[0])
+    f1 = float(dmf.fidelity(rho, sig))
+    if (_bytes(rho), _bytes(sig)) != (r0, s0):
+        return f"fidelity changed an argument (form {form})"
+    t1 = float(dmf.trace_distance(rho, sig))
+    if (_bytes(rho), _bytes(sig)) != (r0, s0):
+        return f"trace_distance changed an argument (form {form})"
+    if abs(f1 - want_f) > tol:
+        return f"fidelity on {form} arrays = {f1!r}, expected {want_f!r}"
+    if abs(t1 - want_t) > TOL:
+        return f"trace_distance on {form} arrays = {t1!r}, expected {want_t!r}"
+    # another pair in between, then the same arrays again
+    dmf.fidelity(o[0].copy(), o[0].copy())
+    dmf.trace_distance(o[0].copy(), rho) if o[2] == n else None
+    f2 = float(dmf.fidelity(rho, sig))
+    t2 = float(dmf.trace_distance(rho, sig))
+    f3 = float(dmf.fidelity(sig, rho))
+    if abs(f2 - f1) > 1e-12 or abs(t2 - t1) > 1e-12:
+        return f"second call on the same arrays: fidelity {f1!r} -> {f2!r}, trace distance {t1!r} -> {t2!r}"
+    if abs(f3 - want_f) > tol:
+        return f"fidelity with swapped arguments after repeated use = {f3!r}, expected {want_f!r}"
+    if (_bytes(rho), _bytes(sig)) != (r0, s0):
+        return f"repeated calls changed an argument (form {form})"
+    # partial trace of the caller's array: every proper subset, keep as list and as ndarray, twice
+    for r in range(1, n):
+        for keep in itertools.combinations(range(n), r):
+            want = core.partial_trace_dm(a[0], n, list(keep))
+            for kp, dims in ((list(keep), n * [2]), (np.array(keep), np.array(n * [2]))):
+                k0, d0 = _bytes(kp), _bytes(dims)
+                for rep in (1, 2):
+                    got = np.asarray(dmf.partial_trace(rho, kp, dims))
+                    if got.shape != want.shape or not np.allclose(got, want, atol=1e-12, rtol=0):
+                        return f"partial_trace keep={list(keep)} ({type(kp).__name__}, form {form}, call {rep}) differs from the textbook reduced state"
+                if _bytes(rho) != r0:
+                    return f"partial_trace changed its input matrix (form {form})"
+                if (_bytes(kp), _bytes(dims)) != (k0, d0) or (isinstance(kp, list) and (kp != list(keep) or dims != n * [2])):
+                    return "partial_trace changed keep / dims"
+    return None
+
+
+@S.item("partial_trace.complex_states_and_chains", site="graphiq.backends.density_matrix.functions:partial_trace",
+        bound="n = 2..4: complex full-rank, complex low-rank (rotated) and complex pure states (fixed construction, seeded "
+              "parameters) x every proper non-empty subset; plus tracing in two steps (first drop one qubit, then the rest) through "
+              "dmf.partial_trace, DensityMatrix.partial_trace and QuantumState.partial_trace on the SAME object",
+        clause="the partial trace equals the textbook reduced state for every subset (reduced states with complex off-diagonal "
+               "elements; repeated partial traces on one object)")
+def ptrace_complex(inp):
+    dmf = _dmf()
+    spec, keep = inp
+    rho, A, n = dmref.build(spec)
+    want = core.partial_trace_dm(rho, n, keep)
+    got = np.asarray(dmf.partial_trace(rho.copy(), list(keep), n * [2]))
+    if got.shape != want.shape or not np.allclose(got, want, atol=1e-12, rtol=0):
+        return f"reduced state differs from textbook partial trace (max dev {np.max(np.abs(got - want)):.3e})"
+    if len(keep) >= 1 and n - len(keep) >= 2:
+        # two steps: drop the highest traced qubit first, then the others (positions shift down)
+        drop = [q for q in range(n) if q not in keep]
+        first = [q for q in range(n) if q != drop[-1]]
+        second = [first.index(q) for q in keep]
+        from graphiq.backends.density_matrix.state import DensityMatrix
+        from graphiq.state import QuantumState
+
+        step = np.asarray(dmf.partial_trace(np.asarray(dmf.partial_trace(rho.copy(), first, n * [2])), second, (n - 1) * [2]))
+        if not np.allclose(step, want, atol=1e-12, rtol=0):
+            return "two successive partial traces (functions) differ from the direct one"
+        d = DensityMatrix(rho.copy())
+        d.partial_trace(first, n * [2])
+        d.partial_trace(second, (n - 1) * [2])
+        if not np.allclose(np.asarray(d.data), want, atol=1e-12, rtol=0):
+            return "two successive DensityMatrix.partial_trace calls on one object differ from the direct reduced state"
+        q = QuantumState(rho.copy(), rep_type="dm")
+        q.partial_trace(first, n * [2])
+        q.partial_trace(second, (n - 1) * [2])
+        if not np.allclose(np.asarray(q.rep_data.data), want, atol=1e-12, rtol=0):
+            return "two successive QuantumState.partial_trace calls on one object differ from the direct reduced state"
+    return None
+
+
+def _qdata(q):
+    """bit-level snapshot of what a QuantumState holds"""
+    r = q.rep_data
+    if q.rep_type == "dm":
+        return ("dm",) + _bytes(r.data)
+    if q.rep_type == "s":
+        tabs = [t for _, t in r.mixture] if hasattr(r, "mixture") else [r.data]
+        pr = [float(p) for p, _ in r.mixture] if hasattr(r, "mixture") else []
+        return ("s", pr) + tuple((_bytes(t.table), _bytes(t.phase), t.n_qubits) for t in tabs)
+    return (q.rep_type,)
+
+
+@S.item("metrics.repeated_use_and_frames", site="graphiq.metrics:Infidelity.evaluate,TraceDistance.evaluate",
+        bound="ONE Infidelity and ONE TraceDistance object per target evaluating a sequence of 4 states twice over: graph states n<=3 "
+              "(seeded sample) in all (target, state) representation combinations {dm,s}^2 (TraceDistance: target dm), and stabilizer "
+              "states n<=2 with target and state in the same representation (any signs)",
+        clause="the metric value is a function of (target, state): same value on every repetition and in every order, equal to "
+               "1-|<t|s>|^2 (resp. sqrt of it); target and state are left bit-for-bit as they were (representation and data)")
+def metric_repeat(inp):
+    from graphiq.metrics import Infidelity, TraceDistance
+
+    kind = inp[0]
+    if kind == "graph":
+        _, at, states, rt, reps = inp
+        tq, tv = _graph_qstate(np.array(at), rt)
+        sts = [_graph_qstate(np.array(a_), r_) for a_, r_ in zip(states, reps)]
+    else:
+        _, n, kt, ks, rep = inp
+        tq, tv = _qstate(n, kt, rep)
+        sts = [_qstate(n, k, rep) for k in ks]
+    t0 = _qdata(tq)
+    s0 = [_qdata(sq) for sq, _ in sts]
+    inf = Infidelity(tq)
+    td = TraceDistance(tq) if tq.rep_type == "dm" else None
+    for rnd in (1, 2):
+        for i, (sq, sv) in enumerate(sts):
+            want = 1 - abs(np.vdot(tv, sv)) ** 2
+            val = float(np.real(inf.evaluate(sq, None)))
+            if abs(val - want) > TOL:
+                return f"round {rnd}, state {i} ({sq.rep_type}), target {tq.rep_type}: Infidelity={val!r}, 1-|<t|s>|^2={want!r}"
+            if td is not None:
+                val = float(np.real(td.evaluate(sq, None)))
+                if abs(val - np.sqrt(max(0.0, want))) > 1e-7:
+                    return f"round {rnd}, state {i} ({sq.rep_type}): TraceDistance={val!r}, expected {np.sqrt(max(0.0, want))!r}"
+            if _qdata(tq) != t0:
+                return f"round {rnd}, state {i}: evaluate changed the target it holds (representation or data)"
+            if _qdata(sq) != s0[i]:
+                return f"round {rnd}, state {i}: evaluate changed the state it was given (representation or data)"
+    return None
+
+
+@S.item("Infidelity.mixed_stabilizer_state", site="graphiq.metrics:Infidelity.evaluate",
+        bound="stabilizer states n<=2 (seeded sample): pure target held as s (any signs) x state = mixture of 2-3 stabilizer states "
+              "held as MixedStabilizer (mixed=True) with weights summing to 1; and the same target / mixture held as density matrices",
+        clause="the infidelity metric returns the same value whether target and state are held as density matrices or as stabilizers "
+               "(state a mixture: sum_i p_i |<t|psi_i>|^2)")
+def infid_mixed(inp):
+    from graphiq.backends.stabilizer.clifford_tableau import CliffordTableau
+    from graphiq.metrics import Infidelity
+    from graphiq.state import QuantumState
+
+    n, kt, ks, ws = inp
+    fulls = _full(n)
+    tq, tv = _qstate(n, kt, "s")
+    mix = []
+    rho = 0
+    want = 0.0
+    for k, w in zip(ks, ws):
+        v, rows, full = fulls[k]
+        t, p = f_stab.full_rows_to_table(full)
+        mix.append((w, CliffordTableau(t, p)))
+        rho = rho + w * core.dm(v)
+        want += w * abs(np.vdot(tv, v)) ** 2
+    sq = QuantumState(mix, rep_type="s", mixed=True)
+    t0, s0 = _qdata(tq), _qdata(sq)
+    for rnd in (1, 2):
+        val = float(np.real(Infidelity(tq).evaluate(sq, None)))
+        if abs(val - (1 - want)) > TOL:
+            return f"target s, state MixedStabilizer (call {rnd}): Infidelity={val!r}, expected {1 - want!r}"
+    if _qdata(tq) != t0 or _qdata(sq) != s0:
+        return "evaluate changed the target or the mixture it was given"
+    tqd, _ = _qstate(n, kt, "dm")
+    sqd = QuantumState(np.array(rho), rep_type="dm")
+    val = float(np.real(Infidelity(tqd).evaluate(sqd, None)))
+    if abs(val - (1 - want)) > TOL:
+        return f"target dm, state dm (same mixture): Infidelity={val!r}, expected {1 - want!r}"
+    return None
+
+
 # ------------------------------------------------------------------ domains
 def _structured(n=2):
     fam = []
@@ -521,6 +734,52 @@ def run(tier, seed):
     for n in (1, 2, 3):
         gp3 += [[a, b] for a in graphs[n] for b in graphs[n]]
     S.map("TraceDistance.evaluate", gp3, nontrivial=lambda p: p[0] != p[1])
+
+    # ---- hardening items
+    forms = ["complex", "real", "fortran", "view"]
+    fr = []
+    sp = pairs[(seed % 97)::97]
+    for i, (a, b) in enumerate(sp + _random_pairs(rng, 900 if thorough else 260)):
+        n_ = dmref.build(a)[2]
+        fr.append([a, b, forms[i % 4], _rand_spec(rng, n_, int(rng.integers(1, 2**n_ + 1)))])
+    S.map("functions.arguments_unchanged_repeatable", fr, nontrivial=lambda p: p[0] != p[1])
+
+    pc = []
+    for n in (2, 3, 4):
+        d = 2**n
+        specs = [["rand", n, d, 1, int(rng.integers(1 << 30))], ["rand", n, 1, 1, int(rng.integers(1 << 30))],
+                 ["rot", ["diag", n, [0, d - 1]], int(rng.integers(1 << 30))],
+                 ["rot", ["diag", n, list(range(0, d, 2))], int(rng.integers(1 << 30))]]
+        if thorough:
+            specs += [["rand", n, int(rng.integers(2, d + 1)), 1, int(rng.integers(1 << 30))] for _ in range(6)]
+        for spec in specs:
+            for r in range(1, n):
+                for keep in itertools.combinations(range(n), r):
+                    pc.append([spec, list(keep)])
+    S.map("partial_trace.complex_states_and_chains", pc)
+
+    mr = []
+    for n in (1, 2, 3):
+        gs = graphs[n]
+        for _ in range({1: 8, 2: 40, 3: 120}[n] * (3 if thorough else 1)):
+            at = gs[int(rng.integers(len(gs)))]
+            states = [gs[int(rng.integers(len(gs)))] for _ in range(3)] + [at]
+            for rt in ("dm", "s"):
+                mr.append(["graph", at, states, rt, [["dm", "s"][int(x)] for x in rng.integers(0, 2, size=4)]])
+    for n, ns_ in ((1, 6), (2, 60)):
+        for _ in range(30 if n == 1 else (300 if thorough else 120)):
+            kt = int(rng.integers(ns_))
+            for rep in ("dm", "s"):
+                mr.append(["stab", n, kt, [int(x) for x in rng.integers(0, ns_, size=3)] + [kt], rep])
+    S.map("metrics.repeated_use_and_frames", mr)
+
+    mx = []
+    for n, ns_ in ((1, 6), (2, 60)):
+        for _ in range(60 if n == 1 else (600 if thorough else 240)):
+            k = int(rng.integers(2, 4))
+            w = rng.dirichlet(np.ones(k))
+            mx.append([n, int(rng.integers(ns_)), [int(x) for x in rng.integers(0, ns_, size=k)], [float(x) for x in w]])
+    S.map("Infidelity.mixed_stabilizer_state", mx)
 
     S.note("fidelity of two mixed states with a rank-deficient argument is compared with tolerance 1e-6 (sqrt of a "
            "numerically-zero eigenvalue, [N] in DESIGN 5/C17); all other comparisons use 1e-9")
